@@ -35,8 +35,9 @@ RuleMatches(r, path) ==
   /\ (r.incl = <<>> \/ \E i \in DOMAIN r.incl : Match(r.incl[i], path))
 
 \* C07: authentication is triggered iff there are no rules, the path is empty, or some rule matches -- on the path alone
+\* ("the path" is the path component: a target that is only a query or a fragment has an empty path)
 Triggered(rules, target) ==
-  rules = <<>> \/ target = <<>> \/ \E i \in DOMAIN rules : RuleMatches(rules[i], PathOf(target))
+  rules = <<>> \/ PathOf(target) = <<>> \/ \E i \in DOMAIN rules : RuleMatches(rules[i], PathOf(target))
 
 ---------------------------------------------------------------------------
 \* C08: the first chain whose criterion holds judges; all its filters must allow; first denial is returned
